@@ -530,6 +530,37 @@ class FakeResult:
         return self._counts
 
 
+def meas_layout(qc):
+    """the measurement layout of a delivered circuit, read from the circuit itself: [(qubit, clbit)], number of clbits, classical register sizes"""
+    pairs = []
+    for inst in qc.data:
+        if inst.operation.name == "measure":
+            pairs.append((qc.find_bit(inst.qubits[0]).index, qc.find_bit(inst.clbits[0]).index))
+    return pairs, qc.num_clbits, [r.size for r in qc.cregs]
+
+
+def device_counts(qc, counts_q, N):
+    """What a device / simulator reports for this circuit when the outcome distribution over the N qubits is `counts_q` (keys in qiskit order: the
+    character for qubit N-1 first): every classical bit shows the outcome of the qubit measured into it (0 if none), keys are formatted like qiskit does
+    (highest classical bit first, one blank between classical registers, the last register first), outcomes that coincide are added up."""
+    pairs, ncl, cregs = meas_layout(qc)
+    if sum(cregs) != ncl:           # loose classical bits: qiskit then reports one flat string
+        cregs = [ncl]
+    out = {}
+    for k, v in counts_q.items():
+        s = k.replace(" ", "")
+        bits = ["0"] * ncl
+        for q, c in pairs:
+            bits[c] = s[N - 1 - q]
+        parts, pos = [], 0
+        for size in cregs:
+            parts.append("".join(reversed(bits[pos:pos + size])))
+            pos += size
+        key = " ".join(reversed(parts))
+        out[key] = out.get(key, 0) + v
+    return out
+
+
 def _tomo_build(job, k):
     lib = L()
     N, lst, conn = job["N"], job["list"], job["conn"]
@@ -586,7 +617,7 @@ def tomo_phase_b(job):
     out = {"values": [], "per_circuit": [], "ro": [], "dm_ok": 1, "exc": ""}
     try:
         circs = _tomo_build(job, 0)
-        counts = job["counts"]
+        counts = [device_counts(qc, cq, job["N"]) for qc, cq in zip(circs, job["counts"])]     # the spec's statistics as the device reports them for these circuits
         full = bool(job["full"])
         res = FakeResult(counts if len(counts) > 1 else counts[0])
         if job["kind"] == "full":
@@ -622,12 +653,12 @@ def fitter_counts(job):
     lib = L()
     T = lib.tomography
     rec = {"op": "fitter", "N": job["N"], "m": job["m"], "list": job["list"] if job["list"] is not None else list(range(job["N"])),
-           "full": 1 if job["full"] else 0, "counts": [[list(k), int(v)] for k, v in job["counts"].items()], "ro": [], "values": [], "exc": ""}
+           "full": 1 if job["full"] else 0, "counts": [[list(k.replace(" ", "")), int(v)] for k, v in job["counts"].items()], "ro": [], "values": [], "exc": ""}
     try:
         j = dict(job, comps=[[1, job.get("prep", [])]])
         circs = _tomo_build(j, 0)
         qc = circs[job["index"] % len(circs)]
-        f = T.StabilizerMeasurementFitter(FakeResult(dict(job["counts"])), qc)
+        f = T.StabilizerMeasurementFitter(FakeResult(device_counts(qc, job["counts"], job["N"])), qc)
         rec["values"] = _entries(f.expectation_values(full_hilbert_space=bool(job["full"])))
         rec["ro"] = readout_part(qc, len(impl.gates_of(impl.circuit_from_gates(job["N"], job.get("prep", [])))), job["list"], job["N"])
     except Exception as e:
